@@ -476,7 +476,7 @@ class Env:
             return len(ctx().defs)
         return len(getattr(self, '_live', []) or [])
 
-    def check_defined(self, name, outputs, since=0, until_event=None):
+    def check_defined(self, name, outputs, since=0, until_event=None, steer=None):
         """No division by zero / log of a non-positive value / out-of-range index is reachable in the library code run
         since `since`, and the outputs are finite.  Symbolically: every recorded definedness side condition is implied by
         the path condition alone.  On the real library: outputs finite and no numpy RuntimeWarning."""
@@ -502,6 +502,10 @@ class Env:
                             n_before += 1
                     defs = ctx().defs[since:][:max(0, n_before - since)] if since <= n_before else []
             cond = SB(z3.And(*defs)) if defs else True
+            if steer and isinstance(cond, SB):
+                # replay steering only (which counterexample is replayed, never the verdict): a corner where the undefined case
+                # is far enough from the boundary to show up in double arithmetic
+                cond = SB(cond.t, None, z3.And(z3.Not(cond.t), *steer))
             self.check(name, cond, _no_defs=True)
             return
         if self.impl == 'model':
